@@ -252,7 +252,12 @@ func XOR(a, b SortedInts) SortedInts {
 //Complement returns a new SortedInts containing the elements in {0,..., n-1} but not a.
 //a is not modified.
 func Complement(n int, a SortedInts) SortedInts {
-	b := make([]int, 0, n-len(a))
+	size := n - len(a)
+	if size < 0 {
+		//a may contain elements outside {0,..., n-1} so it can be longer than n.
+		size = 0
+	}
+	b := make([]int, 0, size)
 	aIndex := 0
 	i := 0
 	for i < n && aIndex < len(a) {
